@@ -124,3 +124,45 @@ Fixpoint app_last (l : list bytes) (t : bytes) : list bytes :=
   | [x] => [x ++ t]
   | x :: r => x :: app_last r t
   end.
+
+(* ---------- ReadAll as a fold over the decoded records ---------- *)
+Definition dummy_dec : decoder := {| d_brs := []; d_off := 0; d_crc := 0 |}.
+(* ReadAll's loop body, the decoder left out (crc records only concern the decoder) *)
+Definition ra_step (start : wsnap) (s : rastate) (r : wrecord) : rastate + werr :=
+  match ra_record start dummy_dec r s with
+  | inl (s', _) => inl s'
+  | inr e => inr e
+  end.
+Fixpoint ra_fold (start : wsnap) (s : rastate) (rs : list wrecord) : rastate + werr :=
+  match rs with
+  | [] => inl s
+  | r :: t => match ra_step start s r with
+              | inr e => inr e
+              | inl s' => ra_fold start s' t
+              end
+  end.
+(* ReadAll's outcome computed from the decoder's (records, verdict, lastValidOff) *)
+Definition fold_view (start : wsnap) (s : rastate) (res : list wrecord * option werr * N)
+  : (rastate * option werr * N) + werr :=
+  let '(rs, v, off) := res in
+  match ra_fold start s rs with
+  | inr e => inr e
+  | inl s' => match v with
+              | Some ECrcChain => inr ECrcChain
+              | Some EPanic => inr EPanic
+              | _ => inl (s', v, off)
+              end
+  end.
+Definition rares_view (r : rares) : (option bytes * hardstate * list entry * N) + werr :=
+  match r with
+  | RAOk m st ents off _ => inl (m, st, ents, off)
+  | RAErr e => inr e
+  end.
+
+(* the wal record that carries a logical record *)
+Definition rec_of_lrec (l : lrec) : N * option bytes :=
+  match l with
+  | LEnt e => (c_entryType, Some (entry_marshal e))
+  | LState s => (c_stateType, Some (hs_marshal s))
+  | LSnap s => (c_snapshotType, Some (snap_marshal s))
+  end.
